@@ -228,6 +228,7 @@ class RecipeManager:
           config['operation'],
           _OpQuantizationConfig.from_dict(config['op_config'])
           if config['algorithm_key'] != AlgorithmName.NO_QUANTIZE
+          or 'op_config' in config
           else None,
           config['algorithm_key'],
       )
